@@ -19,7 +19,7 @@ CHECKS = {
   "DESIGN.md section 5 C02"),
  "C05": ("exploration",
   "runtime monitoring: recording backend reader and reply accounting over exhaustive chunk compositions x segmentations, bait payloads for refused BDATs",
-  "Drives the real server with every composition of short hostile messages into up to four BDAT chunks (zero-size chunks and both LAST placements included), seeded chunkings of longer binary messages, four segmentation disciplines and five refusal states whose chunks carry bait commands; compares the octets, terminal error and call count seen by the recording backend with what was sent, counts replies and checks that marker commands (NOOP or empty lines) are executed in place; chunk sizes are also written zero-padded; chunks overtaken by the read timeout (virtual deadline) and chunks the backend gives up on while a binary remainder is still on the wire must not leak into the command stream.",
+  "Drives the real server with every composition of short hostile messages into up to four BDAT chunks (zero-size chunks and both LAST placements included), seeded chunkings of longer binary messages, four segmentation disciplines and five refusal states whose chunks carry bait commands; compares the octets, terminal error and call count seen by the recording backend with what was sent, counts replies and checks that marker commands (NOOP or empty lines) are executed in place; chunk sizes are also written zero-padded; chunks overtaken by the read timeout (virtual deadline) and chunks the backend gives up on while a binary remainder is still on the wire must not leak into the command stream. A BDAT sent before any greeting is one of the refused kinds.",
   "Known finding C05:linelimit-readahead (KNOWN_FINDINGS.txt) is matched narrowly by precondition+symptom; BDAT with unparsable size not judged.",
   "DESIGN.md section 5 C05"),
  "C06": ("exploration",
@@ -54,7 +54,7 @@ CHECKS = {
   "DESIGN.md section 5 C19"),
  "C09": ("exploration",
   "runtime monitoring: recording scripted SASL mechanisms on both sides, transcript equality with the wire, state checks around the exchange",
-  "Raw exchanges (0..3 challenges of arbitrary octets, every single-step deviation: empty line, bad base64, '*', 1100-octet response; initial response none / '=' / base64 / bad) are driven against the real server in every combination of TLS state, AllowInsecureAuth and backend kind, with surrounding histories (before greeting, after failure, after success, after RSET / re-EHLO, plaintext success followed by STARTTLS, STARTTLS accepted but the handshake failed so that the connection is still plaintext); the recording mechanism must see exactly the decoded octets, or nothing at all where AUTH must be unreachable. The real Client.Auth is run against the real server with recording mechanisms on both ends and against a scripted fake server (non-base64 334, 5xx at step k, early 235).",
+  "Raw exchanges (0..3 challenges of arbitrary octets, every single-step deviation: empty line, bad base64, '*', 1100-octet response; initial response none / '=' / base64 / bad) are driven against the real server in every combination of TLS state, AllowInsecureAuth and backend kind, with surrounding histories (before greeting, after failure, after success, after RSET / re-EHLO, plaintext success followed by STARTTLS, STARTTLS accepted but the handshake failed so that the connection is still plaintext); the recording mechanism must see exactly the decoded octets, or nothing at all where AUTH must be unreachable. The real Client.Auth is run against the real server with recording mechanisms on both ends and against a scripted fake server (non-base64 334, 5xx at step k, early 235). Round 9: base64 with wrong, missing or excess padding counts as malformed (initial response and every step); against the scripted peer every line the client writes in answer to a 334 must be the base64 of what its mechanism returned (an empty response is an empty line).",
   "'=' as a non-initial response and nil responses from a sasl.Client are not judged.",
   "DESIGN.md section 5 C09"),
  "C10": ("exploration",
@@ -69,7 +69,7 @@ CHECKS = {
   "DESIGN.md section 5 C12"),
  "C11": ("exploration",
   "runtime monitoring: recorded Mail/Rcpt arguments vs values known by construction (valid lines) and vs an independent conservative reference classifier (definitely-invalid lines)",
-  "Grammar-derived valid MAIL/RCPT lines carry their expected mailbox and option values by construction and are compared field by field with what the recording backend received (unset fields must be zero); every single-point mutation of seed lines, all short strings over ten syntactically significant characters used as the path, and a table of malformed / disabled-extension parameters (truncated xtext hexchars at value ends included) are classified by ref.ClassifyLine, and the definitely-invalid ones must be answered 5xx without any backend call - also when the server closes the connection after its answer; a recovered panic is a violation; refused 'poison' commands precede judged lines so that leftovers of a refused command show. All 32 extension-flag settings are used.",
+  "Grammar-derived valid MAIL/RCPT lines carry their expected mailbox and option values by construction and are compared field by field with what the recording backend received (unset fields must be zero); every single-point mutation of seed lines, all short strings over ten syntactically significant characters used as the path, and a table of malformed / disabled-extension parameters (truncated xtext hexchars at value ends included) are classified by ref.ClassifyLine, and the definitely-invalid ones must be answered 5xx without any backend call - also when the server closes the connection after its answer; a recovered panic is a violation; refused 'poison' commands precede judged lines so that leftovers of a refused command show. All 32 extension-flag settings are used. Round 9: lenient lines (xtext hexchars above +7F in AUTH=) may be refused, but if accepted the backend must hold exactly those octets.",
   "The verdict is relative to the harness's conservative reading of RFC 5321 4.1.2 and the extension RFCs; lenient forms are deliberately unjudged.",
   "DESIGN.md section 5 C11"),
  "C13": ("exploration",
@@ -104,7 +104,7 @@ CHECKS = {
   "DESIGN.md section 5 C15"),
  "C20": ("exploration",
   "runtime monitoring: Go race detector over enumerated event orders and close/callback overlaps; porcupine linearizability check of concurrent Close/Shutdown histories; termination and goroutine-table checks; scripted Accept errors",
-  "Under the race-detector build (GOMAXPROCS default and 1; also 4 and a non-race pass in thorough): all orders of up to three (thorough: four) harness events from {delivery completes, RSET, next transaction, QUIT, disconnect, Server.Close, Server.Shutdown} against a parked BDAT delivery, a parked LMTP DATA delivery, a parked LMTP BDAT delivery, a parked BDAT delivery of an LMTP server over a plain Session and a BDAT delivery of a backend that serialises Data and Reset with its own mutex; connections idle, in their implicit-TLS handshake, stalled inside a STARTTLS handshake only just handed out by Accept, or handed out at the very moment the listener is closed, or blocked in the write of a reply because the peer has stopped reading, when Close / Shutdown fires; Shutdown with a context that has already expired; Server.Close overlapping each callback kind parked on a gate, and called directly from callbacks; groups of 2..8 barrier-released Close/Shutdown callers on one or two listeners (one of them failing to close) whose recorded call/return history is checked by porcupine against the sequential model 'first caller gets the listener result, later ones ErrServerClosed'; all sequences of up to five temporary/permanent Accept errors; 2..4 listeners of which one Serve ends early on a permanent Accept error while the others keep serving and must all be closed by Close / Shutdown; replays of C03/C05/C13 cases for race coverage. Race reports are parsed, de-duplicated by racing statement pair and are violations; Serve/handlers/deliveries must terminate and no library goroutine may remain at the end.",
+  "Under the race-detector build (GOMAXPROCS default and 1; also 4 and a non-race pass in thorough): all orders of up to three (thorough: four) harness events from {delivery completes, RSET, next transaction, QUIT, disconnect, Server.Close, Server.Shutdown} against a parked BDAT delivery, a parked LMTP DATA delivery, a parked LMTP BDAT delivery, a parked BDAT delivery of an LMTP server over a plain Session and a BDAT delivery of a backend that serialises Data and Reset with its own mutex; connections idle, in their implicit-TLS handshake, stalled inside a STARTTLS handshake only just handed out by Accept, or handed out at the very moment the listener is closed, or blocked in the write of a reply because the peer has stopped reading, when Close / Shutdown fires; Shutdown with a context that has already expired; Server.Close overlapping each callback kind parked on a gate, and called directly from callbacks; groups of 2..8 barrier-released Close/Shutdown callers on one or two listeners (one of them failing to close) whose recorded call/return history is checked by porcupine against the sequential model 'first caller gets the listener result, later ones ErrServerClosed'; all sequences of up to five temporary/permanent Accept errors; 2..4 listeners of which one Serve ends early on a permanent Accept error while the others keep serving and must all be closed by Close / Shutdown; replays of C03/C05/C13 cases for race coverage. Race reports are parsed, de-duplicated by racing statement pair and are violations; Serve/handlers/deliveries must terminate and no library goroutine may remain at the end. Round 9: while the Logout of one connection is held on a gate another connection must be accepted, greeted and served (judged from the goroutine table when it is not); Serve must return after Close also when the closed listener keeps reporting temporary Accept errors.",
   "The race detector sees only executed accesses; interleavings are diversified by enumerated orders, gates, yields and GOMAXPROCS, not exhausted.",
   "DESIGN.md section 5 C20"),
 }
